@@ -61,7 +61,11 @@ func snapshot(m *model) map[string]map[string]string {
 		for c, v := range r {
 			cells[c] = normDB(v)
 		}
-		out[cells[m.pk.col]] = cells
+		var ks []string
+		for _, f := range m.pks {
+			ks = append(ks, cells[f.col])
+		}
+		out[strings.Join(ks, "|")] = cells
 	}
 	return out
 }
@@ -76,11 +80,15 @@ func condKeys(m *model, o *op) map[string]bool {
 		parts = append(parts, "("+c.rsql+")")
 		args = append(args, c.rargs...)
 	}
-	rows, err := vdb.RowMaps(H.SQL, "SELECT `"+m.pk.col+"` AS k FROM `"+m.table+"` WHERE "+strings.Join(parts, " AND "), args...)
+	rows, err := vdb.RowMaps(H.SQL, "SELECT * FROM `"+m.table+"` WHERE "+strings.Join(parts, " AND "), args...)
 	must(err)
 	out := map[string]bool{}
 	for _, r := range rows {
-		out[normDB(r["k"])] = true
+		var ks []string
+		for _, f := range m.pks {
+			ks = append(ks, normDB(r[f.col]))
+		}
+		out[strings.Join(ks, "|")] = true
 	}
 	return out
 }
@@ -235,6 +243,7 @@ func run(c *core.Ctx) {
 					}
 				}
 			}
+			c.Inc("violation_" + signature(o, cls))
 			c.Violation(signature(o, cls), map[string]interface{}{
 				"model":       m.decls(),
 				"seeded_keys": p0keys(m),
@@ -306,7 +315,7 @@ func run(c *core.Ctx) {
 			if len(spell) > 2 {
 				spell = spell[:2]
 			}
-			c.Shape(o.kind, o.tform, o.selMode, spell, ph, fm, nMust > 0, nRefresh > 0, nNarrow > 0, nZero > 0, len(p.target) > 1, m.pk.k.name)
+			c.Shape(o.kind, o.tform, o.selMode, spell, ph, fm, nMust > 0, nRefresh > 0, nNarrow > 0, nZero > 0, len(p.target) > 1, m.pk.k.name, len(m.pks))
 			if c.WantSample() && i == 5 {
 				c.Sample(map[string]interface{}{"model": m.decls(), "operation": desc, "target_rows": p.target, "sql": sqlOf(evs),
 					"checked": fmt.Sprintf("%d written cells, %d denied, %d narrowed, %d refreshed, %d rows outside the target unchanged", nMust, nDenied, nNarrow, nRefresh, len(m.rows)-len(p.target))})
@@ -353,9 +362,9 @@ var Engine = &core.Engine{
 	},
 	Cases: func(tier string) int {
 		if tier == "thorough" {
-			return 40000
+			return 150000
 		}
-		return 2000
+		return 8000
 	},
 	Batch:         func(string) int { return 125 },
 	Run:           run,
